@@ -20,27 +20,33 @@ Proof.
 Qed.
 
 (* ---- the readings and the edits named by a list of operations *)
-Definition spec : Type := (config * list (list cval) * list str * bool)%type.
+Inductive spec : Type :=
+| SOne (cf : config) (sh : list (list cval)) (qk : list str) (w : bool)     (* one object class *)
+| SMany (mc : mconfig) (sh : list (list cval)) (qk : list str).            (* several object classes *)
 
 Fixpoint reads_of (ops : list op) : list spec :=
   match ops with
   | [] => []
-  | ORead cf sh qk w :: r => (cf, sh, qk, w) :: reads_of r
+  | ORead cf sh qk w :: r => SOne cf sh qk w :: reads_of r
+  | OReadM mc sh qk :: r => SMany mc sh qk :: reads_of r
   | OMut _ _ _ _ _ :: r => reads_of r
   end.
 
 Definition read_spec (s : spec) : reading :=
-  match s with (cf, sh, qk, w) => do_read cf sh qk w end.
+  match s with
+  | SOne cf sh qk w => do_read cf sh qk w
+  | SMany mc sh qk => do_read_m mc sh qk
+  end.
 
 Definition is_target (r j a : nat) (o : op) : bool :=
   match o with
   | OMut r' j' a' _ _ => Nat.eqb r r' && Nat.eqb j j' && Nat.eqb a a'
-  | ORead _ _ _ _ => false
+  | _ => false
   end.
 Definition targeted (ops : list op) (r j a : nat) : bool := existsb (is_target r j a) ops.
 
 Lemma reads_of_app : forall a b, reads_of (a ++ b) = reads_of a ++ reads_of b.
-Proof. induction a as [|[cf sh qk w|r j x i m] a IH]; intro b; cbn; rewrite ?IH; auto. Qed.
+Proof. induction a as [|[cf sh qk w|mc sh qk|r j x i m] a IH]; intro b; cbn; rewrite ?IH; auto. Qed.
 
 (* ---- rd is the reading rd0 after edits of the attributes T only *)
 Definition obj_sim (T : nat -> bool) (o o0 : obj) : Prop :=
@@ -113,21 +119,28 @@ Definition inv (ops : list op) (st : list reading) : Prop :=
 Lemma targeted_app : forall a b r j x, targeted (a ++ b) r j x = targeted a r j x || targeted b r j x.
 Proof. intros. unfold targeted. apply existsb_app. Qed.
 
+Lemma inv_read : forall ops st o s, inv ops st -> reads_of [o] = [s] -> step st o = st ++ [read_spec s] ->
+  inv (ops ++ [o]) (st ++ [read_spec s]).
+Proof.
+  intros ops st o s (Hlen & Hall) Ho _. split.
+  + rewrite reads_of_app, Ho, !app_length. cbn. lia.
+  + intros r rd s0 H H0. rewrite reads_of_app, Ho in H0.
+    destruct (Nat.lt_ge_cases r (length st)) as [Hlt|Hge].
+    * rewrite nth_error_app1 in H by auto. rewrite nth_error_app1 in H0 by lia.
+      eapply rd_sim_mono; [|eapply Hall; eauto].
+      intros j0 a0. rewrite targeted_app. intro Hf. apply orb_false_iff in Hf. tauto.
+    * rewrite nth_error_app2 in H by auto. rewrite nth_error_app2 in H0 by lia.
+      rewrite Hlen in H. destruct (r - length (reads_of ops))%nat as [|k] eqn:E; cbn in H, H0.
+      -- inversion H; inversion H0; subst. apply rd_sim_refl.
+      -- destruct k; discriminate.
+Qed.
+
 Lemma inv_step : forall ops st o, inv ops st -> inv (ops ++ [o]) (step st o).
 Proof.
-  intros ops st o (Hlen & Hall). destruct o as [cf sh qk w | r0 j a inner m]; cbn [step].
-  - split.
-    + rewrite reads_of_app, !app_length. cbn. lia.
-    + intros r rd s H H0. rewrite reads_of_app in H0. cbn in H0.
-      destruct (Nat.lt_ge_cases r (length st)) as [Hlt|Hge].
-      * rewrite nth_error_app1 in H by auto. rewrite nth_error_app1 in H0 by lia.
-        eapply rd_sim_mono; [|eapply Hall; eauto].
-        intros j0 a0. rewrite targeted_app. intro Hf. apply orb_false_iff in Hf. tauto.
-      * rewrite nth_error_app2 in H by auto. rewrite nth_error_app2 in H0 by lia.
-        rewrite Hlen in H. destruct (r - length (reads_of ops))%nat as [|k] eqn:E; cbn in H, H0.
-        -- inversion H; inversion H0; subst. cbn. apply rd_sim_refl.
-        -- destruct k; discriminate.
-  - split.
+  intros ops st o Hinv. destruct o as [cf sh qk w | mc sh qk | r0 j a inner m]; cbn [step].
+  - apply (inv_read ops st (ORead cf sh qk w) (SOne cf sh qk w) Hinv); reflexivity.
+  - apply (inv_read ops st (OReadM mc sh qk) (SMany mc sh qk) Hinv); reflexivity.
+  - destruct Hinv as (Hlen & Hall). split.
     + rewrite upd_nth_length, reads_of_app. cbn. rewrite app_nil_r. auto.
     + intros r rd s H H0. rewrite reads_of_app in H0. cbn in H0. rewrite app_nil_r in H0.
       destruct (Nat.eq_dec r r0) as [->|Hne].
@@ -164,13 +177,13 @@ Qed.
 
 (* no edits: the session is the list of the separate readings *)
 Lemma session_no_edits_lemma : forall ops,
-  (forall o, In o ops -> match o with ORead _ _ _ _ => True | OMut _ _ _ _ _ => False end) ->
+  (forall o, In o ops -> match o with OMut _ _ _ _ _ => False | _ => True end) ->
   run_session ops = map read_spec (reads_of ops).
 Proof.
   induction ops as [|o ops IH] using rev_ind; intro H; auto.
   rewrite run_session_snoc, reads_of_app, map_app, IH.
   - assert (Ho : In o (ops ++ [o])) by (apply in_or_app; right; left; auto).
-    specialize (H o Ho). destruct o; [|contradiction]. cbn. auto.
+    specialize (H o Ho). destruct o; [| |contradiction]; cbn; auto.
   - intros o' Hin. apply H. apply in_or_app; auto.
 Qed.
 
